@@ -196,9 +196,13 @@ func newHistEnv() *histEnv {
 
 func sptr(s string) *string { return &s }
 
+// declared values of the enum column e in the initial frames
+var c01EnumVals = []string{"hi", "lo", "mid", "Hi"}
+
 // initial frames
 func (e *histEnv) initial(id int) qframe.QFrame {
-	enums := newqf.Enums(map[string][]string{"e": {"hi", "lo", "mid"}})
+	// "hi" and "Hi" differ only in case: they become one value under ToUpper
+	enums := newqf.Enums(map[string][]string{"e": c01EnumVals})
 	switch id {
 	case 0: // five types, nulls/NaN, ties
 		return qframe.New(map[string]interface{}{
@@ -206,7 +210,7 @@ func (e *histEnv) initial(id int) qframe.QFrame {
 			"f": []float64{1.5, math.NaN(), -2, 1.5, math.Copysign(0, -1)},
 			"b": []bool{true, false, true, true, false},
 			"s": []*string{sptr("a"), nil, sptr(""), sptr("b"), sptr("a")},
-			"e": []*string{sptr("lo"), sptr("hi"), nil, sptr("lo"), sptr("mid")},
+			"e": []*string{sptr("lo"), sptr("hi"), nil, sptr("Hi"), sptr("lo")},
 			"k": []int{1, 0, 1, 0, 1},
 		}, enums)
 	case 1: // zero rows
@@ -224,7 +228,7 @@ func (e *histEnv) initial(id int) qframe.QFrame {
 		e.ownedStr = []*string{sptr("x"), sptr(""), nil, sptr("x")}
 		return qframe.New(map[string]interface{}{
 			"i": e.ownedInt, "f": e.ownedFlt, "b": e.ownedBool, "s": e.ownedStr,
-			"e": []*string{sptr("mid"), nil, sptr("hi"), sptr("hi")}, "k": []int{0, 0, 1, 1},
+			"e": []*string{sptr("mid"), nil, sptr("hi"), sptr("Hi")}, "k": []int{0, 0, 1, 1},
 		}, enums)
 	}
 }
